@@ -162,9 +162,8 @@ Definition decode_nal (nal : list byte) : out iokind cow :=
   | (OK buf, r') =>
       if Nat.eqb (length buf + 1) (length nal) then OK (Borrowed (tl nal))
       else
-        (* Vec::with_capacity(nal_unit.len() - 2): unchecked subtraction *)
-        if Nat.ltb (length nal) 2 then PANIC "attempt to subtract with overflow"
-        else match br_drain r' with
+        (* Vec::with_capacity(nal_unit.len().saturating_sub(2)): no arithmetic can fail *)
+        match br_drain r' with
              | (acc, TermEof, _) => OK (Owned acc)
              | (_, TermErr e, _) => ERR e
              | (_, TermPanic w, _) => PANIC w
